@@ -20,6 +20,11 @@ type StructObl struct {
 }
 
 func runStructural(ld *Loaded, sf *SpecFile, prop string) []StructObl {
+	out := retainObligations(ld, sf, prop)
+	return append(out, runStructuralProp(ld, sf, prop)...)
+}
+
+func runStructuralProp(ld *Loaded, sf *SpecFile, prop string) []StructObl {
 	switch prop {
 	case "C15":
 		return writeSiteFrame(ld)
@@ -183,4 +188,141 @@ func replayFile(opt *Options, path string) int {
 	}
 	fmt.Println("replay: the real code does not fail on this input (any more)")
 	return 0
+}
+
+// retainObligations: `retains p` in a function's contract says that the function keeps the object p points to after it
+// returns (a timer callback reads it later). Obligation at every call site in the package: the argument is an object
+// allocated by the caller, and on no path from the call does the caller write it again or hand it to another call
+// before allocating a new one. (This is what lets the deferred-callback rule read the captured object as it was at the call.)
+func retainObligations(ld *Loaded, sf *SpecFile, prop string) []StructObl {
+	var out []StructObl
+	for _, fk := range sortedKeys(sf.Funcs) {
+		fs := sf.Funcs[fk]
+		for _, rt := range fs.Retains {
+			tagged := false
+			for _, p := range rt.Props {
+				if p == prop {
+					tagged = true
+				}
+			}
+			if !tagged {
+				continue
+			}
+			callee := ld.funcs[fk]
+			if callee == nil {
+				out = append(out, StructObl{Name: prop + "/retains/" + fk + "(" + rt.Param + ")", OK: false, Detail: "function not found"})
+				continue
+			}
+			idx := -1
+			for i, p := range callee.Params {
+				if p.Name() == rt.Param || (i < len(fs.ParamNames) && fs.ParamNames[i] == rt.Param) {
+					idx = i
+				}
+			}
+			if idx < 0 {
+				out = append(out, StructObl{Name: prop + "/retains/" + fk + "(" + rt.Param + ")", OK: false, Detail: "no such parameter"})
+				continue
+			}
+			for _, ck := range sortedKeys(ld.funcs) {
+				caller := ld.funcs[ck]
+				sites := 0
+				for _, b := range caller.Blocks {
+					for i, ins := range b.Instrs {
+						var c *ssa.CallCommon
+						switch x := ins.(type) {
+						case *ssa.Call:
+							c = x.Common()
+						case *ssa.Go:
+							c = x.Common()
+						case *ssa.Defer:
+							c = x.Common()
+						}
+						if c == nil || c.StaticCallee() != callee || idx >= len(c.Args) {
+							continue
+						}
+						sites++
+						name := fmt.Sprintf("%s/retains/%s/%s(%s)", prop, ck, fk, rt.Param)
+						if sites > 1 {
+							name += fmt.Sprintf("#%d", sites)
+						}
+						ok, det := retainedArgUntouched(caller, b, i, c.Args[idx])
+						ps := ld.fset.Position(ins.Pos())
+						out = append(out, StructObl{Name: name, OK: ok, Detail: fmt.Sprintf("%s hands %s to %s at %s:%d, which keeps it: %s", ck, rt.Param, fk, shortFile(ps.Filename), ps.Line, det)})
+					}
+				}
+			}
+		}
+	}
+	return out
+}
+
+func rootedAt(v ssa.Value, al *ssa.Alloc) bool {
+	for {
+		switch x := v.(type) {
+		case *ssa.Alloc:
+			return x == al
+		case *ssa.FieldAddr:
+			v = x.X
+		case *ssa.IndexAddr:
+			v = x.X
+		case *ssa.ChangeType:
+			v = x.X
+		case *ssa.MakeInterface:
+			v = x.X
+		default:
+			return false
+		}
+	}
+}
+
+// retainedArgUntouched: from the call at b.Instrs[at] no write to (or further hand-off of) the object is reachable
+// without first passing through its allocation.
+func retainedArgUntouched(fn *ssa.Function, b *ssa.BasicBlock, at int, arg ssa.Value) (bool, string) {
+	al, ok := arg.(*ssa.Alloc)
+	if !ok {
+		return false, "the argument is not an object allocated by the caller (" + arg.String() + "); the caller's own contract would have to pass the obligation on"
+	}
+	touches := func(ins ssa.Instruction) string {
+		switch x := ins.(type) {
+		case *ssa.Store:
+			if rootedAt(x.Addr, al) {
+				return "a later store into it"
+			}
+		case *ssa.Call, *ssa.Go, *ssa.Defer:
+			c := x.(ssa.CallInstruction).Common()
+			for _, a := range c.Args {
+				if rootedAt(a, al) {
+					return "a later call that is handed the same object (" + calleeName(c) + ")"
+				}
+			}
+		}
+		return ""
+	}
+	seen := map[*ssa.BasicBlock]bool{}
+	var walk func(blk *ssa.BasicBlock, from int) string
+	walk = func(blk *ssa.BasicBlock, from int) string {
+		for i := from; i < len(blk.Instrs); i++ {
+			if blk.Instrs[i] == ssa.Instruction(al) {
+				return "" // a new object from here on
+			}
+			if why := touches(blk.Instrs[i]); why != "" {
+				ps := fn.Prog.Fset.Position(blk.Instrs[i].Pos())
+				return fmt.Sprintf("%s at line %d", why, ps.Line)
+			}
+		}
+		for _, s := range blk.Succs {
+			if seen[s] {
+				continue
+			}
+			seen[s] = true
+			if why := walk(s, 0); why != "" {
+				return why
+			}
+		}
+		return ""
+	}
+	if why := walk(b, at+1); why != "" {
+		return false, "but " + why + " is reachable from the call without a new allocation"
+	}
+	return true, "the object is allocated by the caller and not written or handed on again after the call"
 }
